@@ -32,8 +32,10 @@ struct Own {
 };
 long Own::live = 0;
 
+template<class T> struct SmallArr { T a[8]; uint32 n; SmallArr() : n(0) {} void push_back(const T & x) { a[n++] = x; } bool empty() const { return n == 0; } T & operator[](uint32 i) { return a[i]; } T * begin() { return a; } T * end() { return a + n; } };
 template<class T> struct Conv;
 template<> struct Conv<int32> { static int32 Make(uint32 range) { return (int32)R(range) + 1; } static int32 Def() { return 0; } static std::string Show(const int32 & v) { return vh::fmt("%d", v); } static const char * Name() { return "int32"; } };
+template<> struct Conv<bool> { static bool Make(uint32) { return R(2) != 0; } static bool Def() { return false; } static std::string Show(const bool & v) { return v ? "true" : "false"; } static const char * Name() { return "bool"; } };   // trivial type whose invalid (never-written) values UBSan can see: F55
 template<> struct Conv<String> { static String Make(uint32 range) { char b[64]; snprintf(b, sizeof(b), "s%02u%s", R(range), R(3) == 0 ? "_a_long_string_beyond_sso" : ""); return String(b); } static String Def() { return String(); } static std::string Show(const String & v) { return std::string("'") + v() + "'"; } static const char * Name() { return "String"; } };
 template<> struct Conv<Own> { static Own Make(uint32 range) { return Own((int)R(range)); } static Own Def() { return Own(); } static std::string Show(const Own & v) { return vh::fmt("o%d", v.val()); } static const char * Name() { return "Own"; } };
 
@@ -86,7 +88,7 @@ template<class T> static void MakeOther(Queue<T> & o2, std::deque<T> & m2, uint3
 
 template<class T> static void RunCase(long k, uint64_t cs)
 {
-   g = vh::Rng(cs); trace.clear(); caseBad = false; typeName = Conv<T>::Name();
+   g = vh::Rng(cs); trace.clear(); caseBad = false; typeName = Conv<T>::Name(); vh::stat(std::string("type_") + typeName);
    const long live0 = Own::live;
    {
    Queue<T> * q = new Queue<T>; std::deque<T> m;
@@ -124,8 +126,8 @@ template<class T> static void RunCase(long k, uint64_t cs)
       case 27: { Queue<T> o2; std::deque<T> m2; MakeOther(o2, m2, 6, range, false); OP("InsertItemsAt %u/%u n=%zu", k1, sz, m2.size()); r = q->InsertItemsAt(k1, o2); if (r.IsOK()) m.insert(m.begin() + k1, m2.begin(), m2.end()); else Fail("failed"); } break;
       case 28: if (sz < 300) { OP("InsertItemsAtSelf %u/%u", k1, sz); std::deque<T> c = m; r = q->InsertItemsAt(k1, *q); if (r.IsOK()) m.insert(m.begin() + k1, c.begin(), c.end()); else Fail("failed"); } break;
       case 29: if (sz < 300) { uint32 st = R(sz + 1), n = R(5); OP("InsertItemsAtSelfRange %u/%u from %u n=%u", k1, sz, st, n); std::deque<T> part; for (uint32 i = st; i < sz && (i - st) < n; i++) part.push_back(m[i]); r = q->InsertItemsAt(k1, *q, st, n); if (r.IsOK()) m.insert(m.begin() + k1, part.begin(), part.end()); else Fail("failed"); } break;
-      case 30: { uint32 n = R(5); std::vector<T> arr; for (uint32 i = 0; i < n; i++) arr.push_back(Conv<T>::Make(range)); OP("InsertItemsAtArray %u/%u n=%u", k1, sz, n); r = q->InsertItemsAt(k1, arr.empty() ? NULL : &arr[0], n); if (r.IsOK()) m.insert(m.begin() + k1, arr.begin(), arr.end()); else Fail("failed"); } break;
-      case 31: { uint32 n = R(5); std::vector<T> arr; for (uint32 i = 0; i < n; i++) arr.push_back(Conv<T>::Make(range)); bool head = R(2); OP(head ? "AddHeadMultiArray %u" : "AddTailMultiArray %u", n); if (n) { r = head ? q->AddHeadMulti(&arr[0], n) : q->AddTailMulti(&arr[0], n); if (head) m.insert(m.begin(), arr.begin(), arr.end()); else m.insert(m.end(), arr.begin(), arr.end()); } } break;
+      case 30: { uint32 n = R(5); SmallArr<T> arr; for (uint32 i = 0; i < n; i++) arr.push_back(Conv<T>::Make(range)); OP("InsertItemsAtArray %u/%u n=%u", k1, sz, n); r = q->InsertItemsAt(k1, arr.empty() ? NULL : &arr[0], n); if (r.IsOK()) m.insert(m.begin() + k1, arr.begin(), arr.end()); else Fail("failed"); } break;
+      case 31: { uint32 n = R(5); SmallArr<T> arr; for (uint32 i = 0; i < n; i++) arr.push_back(Conv<T>::Make(range)); bool head = R(2); OP(head ? "AddHeadMultiArray %u" : "AddTailMultiArray %u", n); if (n) { r = head ? q->AddHeadMulti(&arr[0], n) : q->AddTailMulti(&arr[0], n); if (head) m.insert(m.begin(), arr.begin(), arr.end()); else m.insert(m.end(), arr.begin(), arr.end()); } } break;
       case 32: if (sz >= 2 && sz < 300) { uint32 a = R(sz - 1), n = 1 + R(muscleMin(sz - a, (uint32)4)); bool head = R(2); q->Normalize(); OP(head ? "AddHeadMultiOwnArray %u %u" : "AddTailMultiOwnArray %u %u", a, n); std::deque<T> part(m.begin() + a, m.begin() + a + n); r = head ? q->AddHeadMulti(&(*q)[a], n) : q->AddTailMulti(&(*q)[a], n); if (head) m.insert(m.begin(), part.begin(), part.end()); else m.insert(m.end(), part.begin(), part.end()); } break;
       case 33: { uint32 c = R(5); OP("RemoveHeadMulti %u", c); uint32 got = q->RemoveHeadMulti(c); uint32 e = std::min(c, sz); if (got != e) Fail("returned count"); m.erase(m.begin(), m.begin() + e); } break;
       case 34: { uint32 c = R(5); OP("RemoveTailMulti %u", c); uint32 got = q->RemoveTailMulti(c); uint32 e = std::min(c, sz); if (got != e) Fail("returned count"); m.erase(m.end() - e, m.end()); } break;
@@ -214,7 +216,14 @@ static void Regress()
       opname = "docex"; Queue<int32> q; (void)q.AddTail(5); (void)q.InsertItemAt(99, 6);   // "if index is greater than the number of items, the item is appended"
       if (q.GetNumItems() != 2 || q[1] != 6) { caseBad = false; Fail("InsertItemAt(beyond end) is documented to append"); }
    }
-   vh::distinct(1); vh::distinct(2); vh::distinct(3);
+   vh::begin_case(4);
+   { // F55: Normalize()'s rotate branch touched never-written spare slots (invalid bool load under UBSan on an affected tree: the run aborts here)
+      opname = "regress-F55"; Queue<bool> q; for (int i = 0; i < 9; i++) (void)q.AddTail(true); (void)q.AddHead(false); q.Normalize();
+      bool ok = q.GetNumItems() == 10 && q.IsNormalized(); for (uint32 i = 0; ok && i < 10; i++) if (q[i] != (i > 0)) ok = false;
+      if (!ok) { caseBad = false; Fail("Normalize() of a wrapped Queue<bool> changed the contents"); }
+      vh::stat("regress_F55_checked");
+   }
+   vh::distinct(1); vh::distinct(2); vh::distinct(3); vh::distinct(4);
 }
 
 int main(int argc, char ** argv)
@@ -227,7 +236,7 @@ int main(int argc, char ** argv)
    for (long k = c.from; k < c.from + c.cases; k++) {
       vh::begin_case(k);
       uint64_t cs = vh::case_seed(c.seed, 16, (uint64_t)k);
-      switch (k % 3) { case 0: RunCase<int32>(k, cs); break; case 1: RunCase<String>(k, cs); break; default: RunCase<Own>(k, cs); break; }
+      switch (k % 7) { case 0: case 3: RunCase<int32>(k, cs); break; case 1: case 4: RunCase<String>(k, cs); break; case 6: RunCase<bool>(k, cs); break; default: RunCase<Own>(k, cs); break; }
    }
    return vh::finish();
 }
